@@ -17,6 +17,7 @@ CLAUSE_PROPS = {
     'foreign.': ('C03',),
     'clean.': ('C12',),
     'cache.': ('C16',),
+    'effect.': ('C05',),
     'contract.': ('C10',),
 }
 
